@@ -142,6 +142,7 @@ package cache
 //@   ensures[C09] @capacity ca.CacheSize > 0 && old(total(ca)) - old(len(ca.Cache[scope(ca, key)][key])) + len(value) > int(ca.CacheSize) ==> result != nil
 //@   ensures[C09] @accepts old(visible(ca, key)) && (old(ca.Sizes[key]) == 0 || len(value) <= int(old(ca.Sizes[key])))
 //@     && (ca.CacheSize == 0 || old(total(ca)) - old(len(ca.Cache[scope(ca, key)][key])) + len(value) <= int(ca.CacheSize)) ==> result == nil
+//@   ensures[C05,C09] @emptyok old(visible(ca, key)) && len(value) == 0 ==> result == nil
 //@   ensures[C09] @rejectedtotal result != nil ==> total(ca) == old(total(ca))
 //@   ensures @rejected result != nil ==> unchanged(ca.CacheUseSize)
 //@     && in(key, ca.Cache[old(scope(ca, key))]) == old(in(key, ca.Cache[scope(ca, key)]))
